@@ -32,7 +32,7 @@ import tornado.websocket  # noqa: F401
 from tornado.ioloop import IOLoop
 
 from sim.env import SimEnv, UNIT
-from sim.threads import Baton, BatonLoop, line_tracer, ForkRunner, DONE, BLOCKED
+from sim.threads import Baton, BatonAbort, BatonLoop, line_tracer, ForkRunner, DONE, BLOCKED
 
 import os as _os
 ENABLED = _os.environ.get("VERIF_C38_THREADS", "1") != "0"  # VERIF_C38_THREADS=0 switches the thread mode off
@@ -239,17 +239,27 @@ def _child(request, result):
         nontrivial = bool(nforeign >= 1 and sched.preempts >= 1
                           and probes.get("foreign_post_while_loop_asleep", 0) >= 1)
         clean = fatal is None and all(t.state == DONE for t in sched.threads[1:])
-        if clean:
-            loop.sched = None
-            loop.block_hook = None
-        result.send({
+        payload = {
             "violations": viol, "nontrivial": nontrivial, "stats": st,
             "log_head": log.head[:120],
             "log_full": log.full,
-            "outcome": ({"status": state["status"], "scheduled": len(cbs),
-                                 "ran": sum(len(v) for v in runs.values()),
-                                 "threads": sched.describe()}),
-        }, clean=clean)
+            "outcome": {"status": state["status"], "scheduled": len(cbs),
+                        "ran": sum(len(v) for v in runs.values()),
+                        "threads": sched.describe()},
+        }
+        if clean:
+            loop.sched = None
+            loop.block_hook = None
+            result.send(payload, clean=True)
+        elif result.can_leak():
+            # abandon the run in place (see sim.threads.Baton.fatal): verdict is final, the
+            # main thread unwinds to _child() and delivers it, parked threads stay parked
+            state["verdict"] = payload
+            sched.dead = True
+            loop.sched = None
+            loop.block_hook = None
+        else:
+            result.send(payload, clean=False)
 
     sched = Baton(env.tapes.draw, log, max_steps=60000 if line else 12000, fair_cap=8000,
                   on_fatal=lambda kind, detail: finish((kind, detail)))
@@ -353,8 +363,7 @@ def _child(request, result):
         env.loop_errors.append((str(context.get("message", "")).split("(")[0][:60], name))
         log.ev("loop_error", name)
 
-    with env:
-        loop.set_exception_handler(on_loop_error)
+    def _run_world():
         if line:
             sched.tracer = line_tracer(sched, ("tornado/platform/asyncio.py", "tornado/ioloop.py"))
             sys.settrace(sched.tracer)
@@ -377,6 +386,17 @@ def _child(request, result):
         elif status.startswith("error"):
             bad("harness.main_raised", f"{status}: {getattr(env, 'main_exception', None)!r}")
         finish()
+
+    try:
+        with env:
+            loop.set_exception_handler(on_loop_error)
+            _run_world()
+    except BatonAbort:
+        pass
+    finally:
+        sys.settrace(None)
+    if state.get("verdict") is not None and not result.sent:
+        result.send(state["verdict"], leaked=True)
 
 
 _frozen = []
